@@ -16,6 +16,7 @@ def W0started : WorkerSt :=
                 queue := [0] }
 
 structure Quiet (s : Sys) : Prop where
+  npos : 0 < s.n
   nofault : s.fault = false
   progwf : ProgWF s.prog
   router : s.env.router = upd (fun _ => none) 0 (some 0)
@@ -40,8 +41,8 @@ structure Started (s : Sys) : Prop extends Quiet s where
   wk : s.wk = upd (fun _ => WorkerSt.empty) 0 W0started
   cmd0 : ∃ req, s.cmdQ 0 = [Cmd.getResult req 0]
 
-theorem preStart_init (n : Nat) (prog : Prog) (req : Nat) (hwf : ProgWF prog) : PreStart (Sys.init n prog req) := by
-  refine { nofault := rfl, progwf := hwf, router := rfl, pending := rfl, nextPid := rfl, results := rfl, evtQ := fun _ => rfl,
+theorem preStart_init (n : Nat) (prog : Prog) (req : Nat) (hn : 0 < n) (hwf : ProgWF prog) : PreStart (Sys.init n prog req) := by
+  refine { npos := hn, nofault := rfl, progwf := hwf, router := rfl, pending := rfl, nextPid := rfl, results := rfl, evtQ := fun _ => rfl,
            cmdOther := ?_, sent := rfl, appended := rfl, dropped := rfl, spawned := rfl, spawnNotified := rfl,
            reported := rfl, learned := rfl, wk := rfl, cmd0 := ⟨2, req, rfl⟩ }
   intro w hw c hc
@@ -125,7 +126,7 @@ theorem PreStart.micro {s : Sys} (h : PreStart s) (R : Rules) (m : Micro) :
         have hp : (s.wk 0).procs 0 = some (Proc.sleeping 0) := by
           rw [h.wk]; simp [W0init, WorkerSt.setProc]
         simp only [hp, Proc.sleeping, Proc.fresh]
-        refine { nofault := h.nofault, progwf := h.progwf, router := h.router, pending := h.pending, nextPid := h.nextPid,
+        refine { npos := h.npos, nofault := h.nofault, progwf := h.progwf, router := h.router, pending := h.pending, nextPid := h.nextPid,
                  results := h.results, evtQ := h.evtQ, cmdOther := ?_, sent := h.sent, appended := h.appended,
                  dropped := h.dropped, spawned := h.spawned, spawnNotified := h.spawnNotified, reported := h.reported,
                  learned := h.learned, wk := ?_, cmd0 := ⟨req, by simp⟩ }
@@ -199,7 +200,7 @@ theorem run_invariant (R : Rules) (P : Sys → Prop) (hP : ∀ s m, P s → P (m
 holds, up to the start-up phase, after every choice sequence from `Sys.init`. -/
 theorem invariant_from_init (R : Rules) (G : Sys → Prop) (hstart : ∀ s, Started s → G s)
     (hstep : ∀ s m, G s → G (microStep R s m))
-    (n : Nat) (prog : Prog) (req : Nat) (hwf : ProgWF prog) (cs : List Choice) :
+    (n : Nat) (prog : Prog) (req : Nat) (hn : 0 < n) (hwf : ProgWF prog) (cs : List Choice) :
     PreStart (runWith R (Sys.init n prog req) cs) ∨ G (runWith R (Sys.init n prog req) cs) := by
   apply run_invariant R (fun s => PreStart s ∨ G s)
   · intro s m h
@@ -208,8 +209,75 @@ theorem invariant_from_init (R : Rules) (G : Sys → Prop) (hstart : ∀ s, Star
       · exact Or.inl h'
       · exact Or.inr (hstart _ h')
     · exact Or.inr (hstep s m h)
-  · exact Or.inl (preStart_init n prog req hwf)
+  · exact Or.inl (preStart_init n prog req hn hwf)
 
 theorem run_eq_runWith (s : Sys) (cs : List Choice) : run s cs = runWith Rules.current s cs := rfl
+
+/-! ### the routing invariant holds from the start -/
+
+theorem Started.wk_at {s : Sys} (h : Started s) (w : Wid) :
+    s.wk w = if w = 0 then W0started else WorkerSt.empty := by
+  rw [h.wk]; simp [upd_apply]
+
+theorem W0started_procs (p : Pid) :
+    W0started.procs p = if p = 0 then some { Proc.sleeping 0 with result := none, fn := 0, pc := 0, acc := [] } else none := by
+  simp only [W0started, W0init, WorkerSt.setProc, WorkerSt.empty, upd_apply]
+  split <;> simp_all
+
+theorem Started.procs {s : Sys} (h : Started s) (w : Wid) (p : Pid) :
+    (s.wk w).procs p = if w = 0 ∧ p = 0 then some { Proc.sleeping 0 with result := none, fn := 0, pc := 0, acc := [] } else none := by
+  rw [h.wk_at]
+  by_cases ew : w = 0
+  · subst ew; simp [W0started_procs]
+  · simp [ew, WorkerSt.empty]
+
+theorem RInv.of_started {s : Sys} (h : Started s) : RInv s := by
+  have hr : ∀ p w, s.env.router p = some w → p = 0 ∧ w = 0 := by
+    intro p w hp; rw [h.router] at hp; simp only [upd_apply] at hp
+    split at hp <;> simp_all
+  refine { nofault := h.nofault, progwf := h.progwf, below := ?_, zero := ?_, wbound := ?_, placed := ?_, cmds := ?_, evts := ?_,
+           regs := ?_, awaiters := ?_ }
+  · intro p w hp; rw [h.nextPid, (hr p w hp).1]; exact Nat.one_pos
+  · unfold Routed; rw [h.router]; simp
+  · intro p w hp; rw [(hr p w hp).2]; exact h.npos
+  · intro w p hp
+    unfold known at hp; rw [h.procs] at hp
+    split at hp
+    · rename_i e; rw [e.1, e.2, h.router]; simp
+    · simp at hp
+  · intro w c hc
+    by_cases ew : w = 0
+    · subst ew
+      obtain ⟨req, hq⟩ := h.cmd0
+      rw [hq] at hc; simp at hc; subst hc
+      show known s 0 0
+      unfold known; rw [h.procs]; simp
+    · rw [h.cmdOther w ew c hc]; trivial
+  · intro w e he; rw [h.evtQ w] at he; simp at he
+  · intro w p x hx q hq
+    rw [h.procs] at hx
+    split at hx
+    · simp at hx; subst hx
+      simp [Proc.sleeping, Proc.fresh] at hq
+      subst hq; unfold Routed; rw [h.router]; simp
+    · simp at hx
+  · intro w t a ha
+    rw [h.wk_at] at ha
+    split at ha <;> simp [W0started, W0init, WorkerSt.setProc, WorkerSt.empty] at ha
+
+/-- rules whose `emptyWake` only touches scheduling sets (true of `wakeSelecting` and `markActive`) -/
+def Rules.Tame (R : Rules) : Prop := ∀ w p, SameProcs w (R.emptyWake w p)
+
+theorem Rules.current_tame : Rules.current.Tame := fun w p => SameProcs.wakeSelecting w p
+theorem Rules.replaceAnswers_tame : Rules.replaceAnswers.Tame := fun w p => SameProcs.wakeSelecting w p
+theorem Rules.markActiveOnEmpty_tame : Rules.markActiveOnEmpty.Tame := fun w p => SameProcs.markActive w p
+
+theorem RInv.micro {R : Rules} (hR : R.Tame) {s : Sys} (h : RInv s) (m : Micro) : RInv (microStep R s m) := by
+  cases m with
+  | env w => exact h.envStep1 R.combine w
+  | cmd i => exact h.cmdStep1 R.emptyWake hR i
+  | exec i fuel ordQ => exact h.execStep i fuel ordQ
+  | check i ordE => exact h.checkStep i ordE
+  | tick ms => exact { h with }
 
 end QM.Sys
